@@ -169,6 +169,16 @@ func TestC14Roster(t *testing.T) {
 				}
 				if badKey {
 					batch[size-1] = raw[size-1][:32]
+				} else if pend := m.pending[string(cid)][vec]; len(pend) > 0 && size <= 3 && rapid.IntRange(0, 2).Draw(rt, "endsWithThePendingTail") == 0 {
+					// a batch that ends with the key the pending vector already ends with (and, sometimes, repeats it
+					// whole): every submitted key counts, in order, whatever it looks like
+					raw[size-1] = pend[len(pend)-1]
+					batch[size-1] = raw[size-1]
+					if size >= 2 && len(pend) >= 2 && rapid.Bool().Draw(rt, "repeatsTheTailPair") {
+						raw[size-2] = pend[len(pend)-2]
+						batch[size-2] = raw[size-2]
+					}
+					h.Mark("batch-ending-with-the-pending-tail")
 				}
 				o := w.c.Invoke(signers, w.cnt, "addNextEpochNodes", cid, vec, batch)
 				h.Op("add(%s, vector %d, %d keys, badKey=%v) alphabet=%v -> %s", cid[:5], vec, size, badKey, withAlpha, o)
